@@ -146,6 +146,33 @@ Section Concrete.
       + ring.
   Qed.
 
+  (* ---- adjoint of the volume averaging: accumulate semantics ------------- *)
+  (* _interp_volume_average_adj ADDS P^T nval to what oval already holds:
+     entry (i,j,k) of the result = old entry + sum over the matrix entries that
+     target (i,j,k) of weight * nval(source cell).  For every entry list, every
+     arrays. *)
+  Lemma vt_add_spec (T : list (cell3 * cell3 * K)) (nval oval : A3) i j k :
+    vt_add T nval oval i j k
+    = (oval i j k
+       + sum T (fun t => if ((i =? fst (fst (fst (fst t)))) && (j =? snd (fst (fst (fst t))))
+                             && (k =? snd (fst (fst t))))%bool
+                         then snd t * nval (fst (fst (snd (fst t)))) (snd (fst (snd (fst t))))
+                                         (snd (snd (fst t)))
+                         else 0))%F.
+  Proof.
+    revert oval. induction T as [|t T IH]; intros oval.
+    - cbn. ring.
+    - unfold vt_add in *. cbn [fold_left sum]. rewrite IH. cbv zeta.
+      rewrite upd3_add. ring.
+  Qed.
+
+  (* calling it twice accumulates both contributions (what gradient relies on
+     for the sum over source-frequency pairs) *)
+  Lemma vt_add_twice (T1 T2 : list (cell3 * cell3 * K)) (n1 n2 oval : A3) i j k :
+    vt_add T2 n2 (vt_add T1 n1 oval) i j k
+    = (oval i j k + (vt_add T1 n1 zero3 i j k + vt_add T2 n2 zero3 i j k))%F.
+  Proof. rewrite !vt_add_spec. unfold zero3. ring. Qed.
+
   (* ---- lifting to the loop nest ------------------------------------------ *)
   Definition zsum (lo hi : Z) (f : Z -> K) : K :=
     Zfold lo hi (fun t acc => (acc + f t)%F) 0%F.
